@@ -63,8 +63,19 @@ class C01(Prop):
         self.rig = tcpwork.Rig(ctx["shard"])
         self.dev = await self.rig.device()
         clock.set_zone("UTC")
+        # the same process also listens for broadcasts, as a real integration does: TCP control and the UDP bridge share one event loop
+        from ..fakes import udp as _udp
+        from aioswitcher.bridge import SwitcherBridge
+
+        self.urig = _udp.UdpRig(ctx["shard"])
+        self.uport = self.urig.free_ports(1)[0]
+        self.heard = []
+        self.bridge = SwitcherBridge(self.heard.append, [self.uport])
+        await self.bridge.start()
 
     async def teardown(self, ctx):
+        await self.bridge.stop()
+        self.urig.sender.close()
         await self.rig.close()
 
     def cases(self, tier, seed, shard, nshards):
@@ -96,6 +107,11 @@ class C01(Prop):
         now = gen.epoch(r)
         clock.set_zone(zone)
         nops = r.randrange(6, 11)
+        from ..ref import broadcast as _rb
+
+        for model in (r.choice(gen.MODELS), r.choice(gen.MODELS)):
+            self.urig.send(self.uport, _rb.encode(gen.broadcast_desc(r, model, r.randrange(10 ** 6), f"{r.randrange(1, 0xEFFFFF):06x}")))
+        self.urig.send(self.uport, r.randbytes(r.randrange(0, 200)))
         with clock.virtual_time(now) as traveller:
             cl = await self.rig.connect(self.dev, t, dev_id, key)
             try:
@@ -175,6 +191,7 @@ class C01(Prop):
         return (op,)
 
     def finish(self, acc, ctx):
+        acc.count("broadcasts_heard_by_the_bridge_in_the_same_loop", len(self.heard))
         for name, rc in self.recs.items():
             acc.count(f"contract_evaluations_{name}", rc.evaluations)
         if __debug__ and self.recs["sign"].evaluations == 0:
